@@ -29,6 +29,7 @@ item protocol rc[k], rc[k] = v, del rc[k]) through the same policy.
 from __future__ import annotations
 
 import functools
+import itertools
 import time
 
 import pymemcache.client.retrying as R
@@ -474,7 +475,7 @@ def show_coll(ms, how):
 
 def _jobs(tier):
     top = 3 if tier == "quick" else 5
-    jobs = [("invalid",), ("shapes",), ("kwargs",)]
+    jobs = [("invalid",), ("shapes",), ("kwargs",), ("history",)]
     for attempts in range(top, 0, -1):
         for rfm in range(16):
             jobs.append(("grid", attempts, rfm, "toy"))
@@ -625,6 +626,57 @@ def _shapes(chk):
                     chk.count("entry_point_cases")
 
 
+class _View:
+    """The part of a long-lived scripted client's bookkeeping that belongs to one call (indices rebased)."""
+
+    def __init__(self, inner, off):
+        self.returned = [(i - off, v) for i, v in inner.returned if i >= off]
+        self.raised = [(i - off, e) for i, e in inner.raised if i >= off]
+
+
+def _history(chk, only=None):
+    """One long-lived RetryingClient, several calls in a row: every call gets the full policy again (its own
+    `attempts`, its own sleeps), whatever the earlier calls on the same object went through."""
+    use_universe("toy")
+    for attempts in (2, 3):
+        for rfm, dnm in ((0, 0), (1, 0), (0, 2)):
+            rf, dnr = members(rfm), members(dnm)
+            seqs = [q for q in sequences(attempts, rf, dnr)]
+            for s1, s2, s3 in itertools.product(seqs, repeat=3) if attempts == 2 else ((a, b, a) for a in seqs for b in seqs):
+                key = [attempts, rfm, dnm, list(s1), list(s2), list(s3)]
+                if only is not None and key != only:
+                    continue
+                log = []
+                inner = Inner(s1 + s2 + s3, log)
+                rc = construct(inner, attempts, 0.5, spell(rfm, "tuple") if rfm else None, spell(dnm, "list") if dnm else None)
+                real = time.sleep
+                R.sleep = time.sleep = lambda d=None, *a: log.append(("sleep", d))
+                try:
+                    off = 0
+                    for n, seq in enumerate((s1, s2, s3), 1):
+                        mark = len(log)
+                        try:
+                            ending = ("ret", rc.op(K, V, flag=FLAG))
+                        except ScriptExhausted:
+                            ending = ("overrun",)
+                        except Exception as e:  # noqa
+                            ending = ("exc", e)
+                        bad = judge(attempts, 0.5, rf, dnr, seq, "op", log[mark:], ending, _View(inner, off))
+                        chk.add()
+                        if bad:
+                            kind, i, text = bad
+                            chk.violation(f"{kind}|{context(attempts, rf, dnr, seq, i)}|call-{n}-on-the-same-object",
+                                          f"RetryingClient(attempts={attempts}, retry_delay=0.5, retry_for={show_coll(rf, 'tuple' if rfm else 'none')}, "
+                                          f"do_not_retry_for={show_coll(dnr, 'list' if dnm else 'none')}), calls with wrapped outcomes "
+                                          f"{list(s1)}, {list(s2)}, {list(s3)} on one object: call {n} -> {text}",
+                                          {"history_case": key})
+                            break
+                        off += len(seq)
+                finally:
+                    time.sleep = real
+                chk.outcome(("history", attempts, rfm, dnm, seq_code(s1), seq_code(s2), seq_code(s3)))
+
+
 class KwInner:
     """Wrapped client with the real Client's method signatures: records how each call arrived."""
 
@@ -689,6 +741,8 @@ def _worker(job, chk):
         _grid(job, chk)
     elif job[0] == "kwargs":
         _kwargs(chk)
+    elif job[0] == "history":
+        _history(chk)
     elif job[0] == "invalid":
         _invalid(chk)
     elif job[0] == "shapes":
@@ -728,6 +782,10 @@ def replay(detail):
               f"do_not_retry_for={show_coll(c['dnr'], c['dsp'])}) -> {'constructed' if e is None else repr(e)}")
         return [] if e is not None else [f"invalid configuration ({d['reason']}) accepted"]
     use_universe(detail.get("universe", "toy"))
+    if "history_case" in detail:
+        tmp = runner.Check(PROPERTY, LEVEL, "replay", 0)
+        _history(tmp, only=detail["history_case"])
+        return [v["what"] for v in tmp.violations.values()]
     if "kwargs_call" in detail:
         tmp = runner.Check(PROPERTY, LEVEL, "replay", 0)
         _kwargs(tmp, only=detail["kwargs_call"])
